@@ -10,6 +10,8 @@ import (
 	"regexp"
 	"strconv"
 	"strings"
+	"unicode"
+	"unicode/utf8"
 
 	"golang.org/x/tools/go/ssa"
 )
@@ -213,6 +215,59 @@ func intrinsic(name string, fn *ssa.Function, args []value, free []value) (value
 			a1 = concretize(t)
 		}
 		return one(splitUnion(a0), splitUnion(a1)), true
+	case "strings.IndexFunc", "strings.LastIndexFunc", "strings.ContainsFunc":
+		cl, ok := args[1].(*closure)
+		if !ok || cl == nil {
+			panic(unsupported{name + " with a non-closure predicate"})
+		}
+		pred := func(r value) bool { return branch(call(cl.fn, []value{r}, cl.env)) }
+		res := func(i int) value {
+			if name == "strings.ContainsFunc" {
+				return i >= 0
+			}
+			return int64(i)
+		}
+		one := func(sv value) value {
+			if str, isStr := sv.(string); isStr {
+				if name == "strings.LastIndexFunc" {
+					last := -1
+					for i, r := range str {
+						if pred(int64(r)) {
+							last = i
+						}
+					}
+					return res(last)
+				}
+				for i, r := range str {
+					if pred(int64(r)) {
+						return res(i)
+					}
+				}
+				return res(-1)
+			}
+			// symbolic bytes: ASCII only (a byte >= 0x80 would start a multi-byte rune)
+			b := toBytes(sv)
+			requireASCII(b)
+			if name == "strings.LastIndexFunc" {
+				for i := len(b) - 1; i >= 0; i-- {
+					if pred(b[i]) {
+						return res(i)
+					}
+				}
+				return res(-1)
+			}
+			for i := range b {
+				if pred(b[i]) {
+					return res(i)
+				}
+			}
+			return res(-1)
+		}
+		a0 := args[0]
+		if t, isT := a0.(*tab); isT {
+			return lift1(t, one), true
+		}
+		return one(splitUnion(a0)), true
 	case "regexp.Compile", "regexp.MustCompile":
 		p, ok := concretize(args[0]).(string)
 		if !ok {
@@ -291,8 +346,16 @@ func intrinsic(name string, fn *ssa.Function, args []value, free []value) (value
 		}
 		cl := args[1].(*closure)
 		n := len(sl.s)
-		if n > 12 && name == "sort.Slice" {
-			panic(unwindFail{"sort.Slice with more than 12 elements (pdqsort not modelled)"})
+		// Go sorts up to 12 elements by insertion sort - modelled exactly. Longer slices use
+		// pdqsort; they are modelled by insertion sort as well, which yields the same result
+		// whenever the comparator is a consistent strict weak order whose ties are
+		// indistinguishable downstream (recorded as an assumption; a counterexample that
+		// depends on it would not replay natively and would be reported as inconclusive).
+		if n > 12 {
+			sortAssumed = true
+		}
+		if n > 64 {
+			panic(unwindFail{"sort.Slice with more than 64 elements"})
 		}
 		less := func(i, j int) bool { return branch(call(cl.fn, []value{int64(i), int64(j)}, cl.env)) }
 		for i := 1; i < n; i++ {
@@ -305,6 +368,13 @@ func intrinsic(name string, fn *ssa.Function, args []value, free []value) (value
 		// sequential semantics: the engine explores one call at a time; the use of a lock is
 		// recorded so that purity checks confirm the concurrent behaviour natively
 		syncUses[name] = true
+		return nil, true
+	case "(*sync.WaitGroup).Add", "(*sync.WaitGroup).Done":
+		syncUses[name] = true
+		return nil, true
+	case "(*sync.WaitGroup).Wait":
+		syncUses[name] = true
+		runPendingGoroutines()
 		return nil, true
 	case "(*sync.Mutex).TryLock", "(*sync.RWMutex).TryLock":
 		syncUses[name] = true
@@ -578,6 +648,7 @@ func jsonDecodeStub(doc *jsonStub, target iface) value {
 	return iface{}
 }
 
+var sortAssumed bool
 var inOnce int
 var syncUses = map[string]bool{}
 var onceDone = map[*value]bool{}
@@ -975,7 +1046,45 @@ func nativeCall(fn *ssa.Function, args []value) (value, bool) {
 		if s, ok := args[0].(string); ok {
 			return int64(strings.IndexByte(s, byte(args[1].(int64)))), true
 		}
-	case "unicode.IsLetter", "unicode.IsDigit", "unicode.IsSpace", "unicode.IsUpper", "unicode.IsLower":
+	case "unicode.IsLetter", "unicode.IsDigit", "unicode.IsSpace", "unicode.IsUpper", "unicode.IsLower", "unicode.IsNumber", "unicode.IsPunct":
+		if r, ok := args[0].(int64); ok {
+			switch name {
+			case "unicode.IsLetter":
+				return unicode.IsLetter(rune(r)), true
+			case "unicode.IsDigit":
+				return unicode.IsDigit(rune(r)), true
+			case "unicode.IsSpace":
+				return unicode.IsSpace(rune(r)), true
+			case "unicode.IsUpper":
+				return unicode.IsUpper(rune(r)), true
+			case "unicode.IsLower":
+				return unicode.IsLower(rune(r)), true
+			case "unicode.IsNumber":
+				return unicode.IsNumber(rune(r)), true
+			case "unicode.IsPunct":
+				return unicode.IsPunct(rune(r)), true
+			}
+		}
+	case "unicode.ToLower", "unicode.ToUpper":
+		if r, ok := args[0].(int64); ok {
+			if name == "unicode.ToLower" {
+				return int64(unicode.ToLower(rune(r))), true
+			}
+			return int64(unicode.ToUpper(rune(r))), true
+		}
+	case "unicode/utf8.DecodeRuneInString":
+		if s, ok := args[0].(string); ok {
+			r, n := utf8.DecodeRuneInString(s)
+			return tuple{int64(r), int64(n)}, true
+		}
+	case "unicode/utf8.RuneCountInString":
+		if s, ok := args[0].(string); ok {
+			return int64(utf8.RuneCountInString(s)), true
+		}
+	case "unicode/utf8.ValidString":
+		if s, ok := args[0].(string); ok {
+			return utf8.ValidString(s), true
+		}
 	}
 	_ = hex.EncodeToString
 	return nil, false
